@@ -66,6 +66,8 @@ def _ref_expr(spec, ref):
     cb = spec["cbs"][ref["cb"]]
     if cb["kind"] == "lambda":
         return f"(lambda *args, **kwargs: REC.run({ref['cb']!r}, None, args, kwargs))"
+    if cb["kind"] == "boundm":
+        return f"HB_{ref['cb']}.record"
     return cb["name"]
 
 
@@ -181,6 +183,11 @@ def render_canonical(spec, cls_suffix="", _providers_only=False, _uid=None):
         L += SIGDECO_SRC
     if any(x.get("awrap") for grp in (spec["cbs"], spec["guards"], spec["validators"]) for x in grp.values()):
         L += AWRAP_SRC
+    if any(cb["kind"] == "boundm" for cb in spec["cbs"].values()):
+        # helper objects of ONE class whose bound methods are passed as callbacks
+        L += ["class Helper_:", "    def __init__(self, cid):", "        self.cid = cid",
+              "    def record(self, *args, **kwargs):", "        return REC.run(self.cid, None, args, kwargs)", ""]
+        L += [f"HB_{cid} = Helper_({cid!r})" for cid, cb in spec["cbs"].items() if cb["kind"] == "boundm"] + [""]
     if not spec.get("style"):
         for nm, g in spec["guards"].items():
             if _guard_by_obj(g) and g["by_obj"] == "module":
